@@ -39,7 +39,7 @@ Supported(ev) ==
    /\ ev.cls = 0 /\ ev.xt = 0 /\ ev.af \in 0..3 /\ ev.ib = 0
    /\ \A x \in Reach({ev.g}, {}) :
          /\ TableNodes[x].iop \in MachineOps
-         /\ M!AKindOf(x, ev.af) \in 0..4
+         /\ M!AKindOf(x, ev.af) \in 0..7
 
 Init == /\ l = 1 /\ w = <<>> /\ cfg = [g |-> 1, A |-> 1, M |-> 1, af |-> 0, cf |-> 1, eol |-> 3, ib |-> 0, il |-> 1, ic |-> 1]
         /\ fr = <<>> /\ cur = 0 /\ ret = -1 /\ exc = M!NoExc /\ q = <<>> /\ done = -1
